@@ -40,6 +40,7 @@ REQUIRED_REACH = [
     "probe:error_in_included_file",
     "probe:fault_after_first_output_write",
     "probe:clean_run_output_compared",
+    "probe:execution_repeated_in_same_process",
 ]
 
 ENTRIES = ("string", "with_emitter", "assemble", "patch", "cli")
@@ -219,11 +220,20 @@ def run_single(case: dict[str, Any], stats: Stats) -> list[Violation]:
     knobs = case.get("knobs") or {}
     faults = case.get("faults") or []
     inserted = case.get("insert") is not None
-    o = entries.execute_one(files, roles, spec, knobs, faults)
+    if case.get("repeat"):
+        # the same execution twice in one process: the second attempt must be judged like the first
+        # (state left behind by a failed attempt must not turn the next one into a "success")
+        op = {"op": "exec", "spec": spec, "knobs": knobs, "faults": faults}
+        first, o = entries.execute(files, roles, [op, op])
+        stats.add_outcome(first)
+        stats.bump("probe:execution_repeated_in_same_process")
+    else:
+        o = entries.execute_one(files, roles, spec, knobs, faults)
     stats.add_outcome(o)
     fired = bool(o["fired"]) or bool(o.get("writer_fired"))
     entry = spec["entry"]
     what = "clean"
+    rep = " (second attempt in the same process)" if case.get("repeat") else ""
     if inserted:
         what = "error:" + case["insert"]["class"]
     elif o["fired"]:
@@ -263,7 +273,7 @@ def run_single(case: dict[str, Any], stats: Stats) -> list[Violation]:
         return out
     if bad:
         if o["ok"]:
-            out.append(Violation("success_reported_on_failure", f"{entry}|{':'.join(what.split(':')[:3])}", f"{entry}: {what} but the caller was told success (kind={o['kind']} ret={o.get('ret')!r})", case, detail))
+            out.append(Violation("success_reported_on_failure", f"{entry}|{':'.join(what.split(':')[:3])}", f"{entry}{rep}: {what} but the caller was told success (kind={o['kind']} ret={o.get('ret')!r})", case, detail))
         elif o["announced"] and (inserted or any(not f["role"].startswith("out_") for f in o["fired"])):
             # judged for the statement's own classes (source errors, unreadable inputs) only: an output that
             # fails at its final flush/close after the assembly itself completed is judged on status alone.
@@ -322,7 +332,7 @@ def sub_cases(case: dict[str, Any], stats: Stats) -> Iterator[dict[str, Any]]:
             continue
         s0 = rng.choice(ok_slots)
         for e in ENTRIES:
-            yield dict(base, spec=specs[e], insert={"class": klass, "slot": s0}, knobs={})
+            yield dict(base, spec=specs[e], insert={"class": klass, "slot": s0}, knobs={}, repeat=rng.random() < 0.25)
         others = [s for s in ok_slots if s is not s0]
         if case.get("tier") != "thorough" and len(others) > SLOTS_PER_CLASS:
             # keep every distinct context kind, then fill up by seed
@@ -334,7 +344,7 @@ def sub_cases(case: dict[str, Any], stats: Stats) -> Iterator[dict[str, Any]]:
             rng.shuffle(rest)
             others = keep + rest[: max(0, SLOTS_PER_CLASS - len(keep))]
         for s in others:
-            yield dict(base, spec=specs[rng.choice(ENTRIES)], insert={"class": klass, "slot": s}, knobs=benign_knobs(krng) if rng.random() < 0.3 else {})
+            yield dict(base, spec=specs[rng.choice(ENTRIES)], insert={"class": klass, "slot": s}, knobs=benign_knobs(krng) if rng.random() < 0.3 else {}, repeat=rng.random() < 0.15)
     # (3) D5: failing user Writer
     twin = twin_of(prog.all_files(), prog.all_roles(), prog.mapping, [list(d) for d in prog.defines])
     for e in ("string", "with_emitter"):
@@ -397,6 +407,8 @@ def sample_of(case: dict[str, Any]) -> Any:
 def shrink_candidates(case: dict[str, Any]) -> Iterator[dict[str, Any]]:
     if case.get("type") != "single":
         return
+    if case.get("repeat"):
+        yield dict(case, repeat=False)
     for key in ("knobs",):
         if case.get(key):
             for k in list(case[key]):
